@@ -104,10 +104,9 @@ func runC08(c *Ctx) {
 	fTClient := P.Field("cache", "Target", "client")
 	fCClient := P.Field("cache", "Cache", "client")
 	fCoal := P.Field("coalesce", "Queue", "coalesced")
-	fRespT := P.Field("subscribe", "resp", "t")
 	for n, ok := range map[string]bool{"subscribe.(*Server).Update": sUpd != nil, "coalesce.(*Queue).Insert": Insert != nil, "coalesce.(*Queue).insert": insert != nil,
 		"subscribe.(*Server).sendSubscribeResponse": ssr != nil, "subscribe.(*Server).sendStreamingResults": sres != nil, "subscribe.(*Server).MakeSubscribeResponse": msr != nil,
-		"cache.Target.client": fTClient != nil, "cache.Cache.client": fCClient != nil, "coalesce.Queue.coalesced": fCoal != nil, "subscribe.resp.t": fRespT != nil} {
+		"cache.Target.client": fTClient != nil, "cache.Cache.client": fCClient != nil, "coalesce.Queue.coalesced": fCoal != nil} {
 		if !ok {
 			c.Unresolved("C08.anchors", n)
 		}
@@ -233,13 +232,34 @@ func runC08(c *Ctx) {
 	{
 		sendTimerDiscipline(c, "C08.timer")
 		// the timer handed to sendSubscribeResponse is the one the watcher selects on
+		// (whatever carries it there: a struct field, a parameter): the receiver of the Timer.Reset that brackets the
+		// Send, resolved on the paths of the sender loop with sendSubscribeResponse entered
 		var timerVal ssa.Value
 		okWire := false
-		instrs(sres, func(in ssa.Instruction) {
-			if st, ok := in.(*ssa.Store); ok && fieldOf(st.Addr) == fRespT {
-				timerVal = st.Val
+		{
+			e := &PPA{MaxVisits: 2, Inline: func(fr *Frame, call ssa.CallInstruction, callee *ssa.Function) bool { return callee == ssr },
+				Watch: func(ev *Ev) bool { return ev.Label == "call:(*time.Timer).Reset" }}
+			e.Run(sres)
+			c.Paths += len(e.Paths)
+			oneTimer := true
+			for i := range e.Paths {
+				p := &e.Paths[i]
+				for j := range p.Trace {
+					if p.Trace[j].Label != "call:(*time.Timer).Reset" || len(p.Trace[j].Args) == 0 {
+						continue
+					}
+					v := p.Trace[j].Args[0].V
+					if timerVal == nil {
+						timerVal = v
+					} else if timerVal != v {
+						oneTimer = false
+					}
+				}
 			}
-		})
+			if !oneTimer {
+				timerVal = nil
+			}
+		}
 		var watcher *ssa.Function
 		var watcherMC *ssa.MakeClosure
 		var watcherGo *ssa.Go
@@ -354,25 +374,34 @@ func runC08(c *Ctx) {
 		}
 		c.Floor("C08.dup-clone/stores", n, 1)
 		// dup flows from Queue.Next to MakeSubscribeResponse
-		okFlow := false
-		for _, ci := range callsIn(ssr) {
-			if staticCallee(ci.Common()) == msr {
-				// r.dup
-				if u, ok := ci.Common().Args[2].(*ssa.UnOp); ok && fieldName(u.X.(*ssa.FieldAddr).X.Type(), u.X.(*ssa.FieldAddr).Field) == "dup" {
-					okFlow = true
+		// (through a struct field or a parameter): on every path of the sender loop with sendSubscribeResponse entered,
+		// the count handed to MakeSubscribeResponse is the uint32 result of the Queue.Next call that produced the item
+		okFlow, nMSR := true, 0
+		{
+			e := &PPA{MaxVisits: 2, Inline: func(fr *Frame, call ssa.CallInstruction, callee *ssa.Function) bool { return callee == ssr },
+				Watch: func(ev *Ev) bool { return ev.Label == "call:"+fnName(msr) }}
+			e.Run(sres)
+			c.Paths += len(e.Paths)
+			for i := range e.Paths {
+				p := &e.Paths[i]
+				for j := range p.Trace {
+					ev := &p.Trace[j]
+					if len(ev.Args) < 3 {
+						continue
+					}
+					nMSR++
+					ex, ok := ev.Args[2].V.(*ssa.Extract)
+					if !ok || !isCallNamed(ex.Tuple, "(*coalesce.Queue).Next") {
+						okFlow = false
+						continue
+					}
+					if bt, isB := ex.Type().Underlying().(*types.Basic); !isB || bt.Kind() != types.Uint32 {
+						okFlow = false
+					}
 				}
 			}
 		}
-		fDupF := P.Field("subscribe", "resp", "dup")
-		okNext := false
-		instrs(sres, func(in ssa.Instruction) {
-			if st, ok := in.(*ssa.Store); ok && fieldOf(st.Addr) == fDupF {
-				if ex, ok := st.Val.(*ssa.Extract); ok && ex.Index == 1 && isCallNamed(ex.Tuple, "(*coalesce.Queue).Next") {
-					okNext = true
-				}
-			}
-		})
-		c.Check(okFlow && okNext, "C08.dup-clone", fnName(sres), "duplicate count flows Queue.Next -> resp.dup -> MakeSubscribeResponse", P.Pos(sres.Pos()), fmt.Sprintf("resp.dup = Next()#1: %v; MakeSubscribeResponse(…, r.dup): %v", okNext, okFlow))
+		c.Check(okFlow && nMSR > 0, "C08.dup-clone", fnName(sres), "duplicate count flows Queue.Next -> MakeSubscribeResponse", P.Pos(sres.Pos()), fmt.Sprintf("%d MakeSubscribeResponse calls on the sender's paths, count is Next()'s uint32 result on all of them: %v", nMSR, okFlow))
 	}
 	_ = types.Typ
 }
